@@ -1,5 +1,6 @@
 import NetqasmVerif.Driver.Json
 import NetqasmVerif.Model.Sdk
+import NetqasmVerif.Model.SdkHost
 open Lean
 namespace NQ.Drv
 open NQ.Sdk
@@ -39,6 +40,9 @@ def tgtOfJson (j : Json) : Option MTgt := do
   else if k == "fut" then do let f ← (jField? j "f").bind futOfJson; pure (.fut f)
   else none
 
+/-- optional explicit loop register `"r": i` (absent / null: chosen by the SDK) -/
+def sdkOptReg (j : Json) : Option Nat := (jField? j "r").bind jNat?
+
 mutual
 partial def hostOfJson (j : Json) : Option Host := do
   let k ← (jField? j "k").bind jStr?
@@ -58,8 +62,8 @@ partial def hostOfJson (j : Json) : Option Host := do
   else if k == "if" then do
     pure (.ifc (← (jField? j "cb").bind jBool?) (← ((jField? j "c").bind jStr?).bind condOfStr)
       (← val "a") (← val "b") (← body "body"))
-  else if k == "loop" then do pure (.loop (← int "s") (← int "e") (← int "d") (← body "body"))
-  else if k == "lbody" then do pure (.loopBody (← int "s") (← int "e") (← int "d") (← body "body"))
+  else if k == "loop" then do pure (.loop (sdkOptReg j) (← int "s") (← int "e") (← int "d") (← body "body"))
+  else if k == "lbody" then do pure (.loopBody (sdkOptReg j) (← int "s") (← int "e") (← int "d") (← body "body"))
   else if k == "foreach" then do
     pure (.foreach (← nat "arr") (← (jField? j "idx").bind jBool?) (← body "body"))
   else if k == "until" then do
@@ -114,6 +118,74 @@ def handleSdk (op : String) (j : Json) : Option Json :=
         | none => Json.null
         | some (st, e) => Json.arr #[toJson st, (errName e : Json)]),
       ("peak", toJson out.mem.peak)])
+  else none
+
+
+def sdkOptIntToJson : Option Int → Json
+  | some v => toJson v
+  | none => Json.null
+
+def sdkEvToJson : Ev → Json
+  | .qalloc => Json.arr #["qalloc"]
+  | .init => Json.arr #["init"]
+  | .gate g => Json.arr #["g", toJson g]
+  | .meas o => Json.arr #["meas", toJson o]
+  | .qfree => Json.arr #["qfree"]
+
+def sdkArrsToJson (arrs : Nat → Option (List (Option Int))) (na : Nat) : Json :=
+  Json.arr ((List.range na).filterMap (fun a => (arrs a).map (fun l =>
+    Json.arr #[toJson a, Json.arr (l.map sdkOptIntToJson).toArray]))).toArray
+
+def sdkViewToJson (v : HView) : Json :=
+  Json.mkObj [
+    ("arr", Json.arr (v.arrs.map (fun (a, l) =>
+      Json.arr #[toJson a, Json.arr (l.map sdkOptIntToJson).toArray])).toArray),
+    ("reg", Json.arr (v.regs.map (fun (h, x) => Json.arr #[toJson h, toJson x])).toArray)]
+
+/-- run the proto-subroutines of a program one after the other under ProtoExec -/
+def sdkExecSubs (fuel : Nat) (handles : List (Sdk.Reg × Bool)) (na : Nat) :
+    St → List (Option (List PCmd)) → List Json → Bool × St × List Json
+  | s, [], acc => (true, s, acc)
+  | s, none :: rest, acc =>
+    sdkExecSubs fuel handles na s rest (acc ++ [Json.null])
+  | s, some cs :: rest, acc =>
+    let (s1, pc) := runFuel cs fuel (s, 0)
+    let snap := Json.mkObj [
+      ("arr", sdkArrsToJson s1.arrs na),
+      ("reg", Json.arr (handles.mapIdx (fun h (rb : Sdk.Reg × Bool) =>
+        Json.arr #[toJson h, sdkOptIntToJson (s1.regs rb.1)])).toArray),
+      ("shmarr", sdkArrsToJson s1.shmArrs na),
+      ("halted", toJson (pc == cs.length))]
+    if pc == cs.length then sdkExecSubs fuel handles na s1 rest (acc ++ [snap])
+    else (false, s1, acc ++ [snap])
+
+def handleSdkSem (op : String) (j : Json) : Option Json :=
+  if op == "sdk.hsem" then do
+    let p ← (jField? j "p").bind jArr?
+    let tops ← p.toList.mapM topOfJson
+    let outs ← (jField? j "outs").bind jInts?
+    let fuel ← (jField? j "fuel").bind jNat?
+    let r := hrun fuel outs tops
+    pure (Json.mkObj [
+      ("ok", toJson r.final.isSome),
+      ("views", Json.arr (r.views.map sdkViewToJson).toArray),
+      ("trace", match r.final with
+        | some s => Json.arr (s.trace.map sdkEvToJson).toArray
+        | none => Json.null)])
+  else if op == "sdk.exec" then do
+    let p ← (jField? j "p").bind jArr?
+    let tops ← p.toList.mapM topOfJson
+    let outs ← (jField? j "outs").bind jInts?
+    let fuel ← (jField? j "fuel").bind jNat?
+    let out := Sdk.run tops
+    match out.err with
+    | some _ => pure (Json.mkObj [("ok", toJson false), ("builderr", toJson true)])
+    | none =>
+      let s0 : St := { regs := fun _ => none, arrs := fun _ => none, shmRegs := fun _ => none,
+                       shmArrs := fun _ => none, trace := [], outcomes := outs }
+      let (ok, s1, snaps) := sdkExecSubs fuel out.mem.handles out.mem.arrLens.length s0 out.subs []
+      pure (Json.mkObj [("ok", toJson ok), ("builderr", toJson false), ("states", Json.arr snaps.toArray),
+        ("trace", Json.arr (s1.trace.map sdkEvToJson).toArray)])
   else none
 
 end NQ.Drv
